@@ -79,3 +79,15 @@ Example C19_context_reduce_carry :   (* 9.95 at Precision 2, half_up: rounds to 
   ctx_reduce go_est (mkCtx 2 9 (-9) c0 RHalfUp) (mkDec Finite false (-2) 995)
   = Ok (finish (mkCtx 2 9 (-9) c0 RHalfUp) (mkDec Finite false 1 1) (fInexact ||| fRounded), 1).
 Proof. vm_compute. reflexivity. Qed.
+
+(* Context.Reduce at Precision 0 (no rounding at all): the operand with its trailing zeros removed, no condition *)
+From Apd Require Import Proofs.P0Proofs Proofs.ReduceP0.
+Theorem C19_context_reduce_precision_zero est : est_in_range est -> forall c x,
+  prec c = 0 -> finite_nn x -> exact_in_range c (exact_of_dec x) ->
+  exists d' n, ctx_reduce est c x = Ok (finish c d' c0, n) /\
+    (coeff x = 0 -> d' = mkDec Finite (neg x) 0 0 /\ n = 0) /\
+    (0 < coeff x ->
+       form_of d' = Finite /\ neg d' = neg x /\ 0 <= n /\ exp d' = exp x + n /\ coeff x = coeff d' * 10 ^ n /\
+       0 < coeff d' /\ coeff d' mod 10 <> 0).
+Proof. exact (ctx_reduce_p0 est). Qed.
+Print Assumptions C19_context_reduce_precision_zero.
